@@ -3524,6 +3524,12 @@ class Fused(Blockwise):
     def _meta(self):
         return self.exprs[0]._meta
 
+    def simplify_once(self, dependents, simplified):
+        # A fused group is the result of a completed optimization.  Its members
+        # (``exprs``) reference their external dependencies by name, so the
+        # sub-tree below must not be rewritten independently of the members
+        return self
+
     def _tree_repr_lines(self, indent=0, recursive=True):
         header = f"Fused({self._name[-5:]}):"
         if not recursive:
